@@ -617,7 +617,7 @@ fn main() {
         Mode_::Explore(t) => *t,
     };
     let rep = Report::new(PROP, tier, cli_.seed);
-    let l = tier.pick(3usize, 4usize);
+    let l = tier.pick(3usize, 5usize);
     let cs = corpus();
     rep.rule("block = one derived type of the corpus; cases: (1) every argv in A^{<=L} over the cell's 14-token alphabet: derive parse ok <=> generated command parse ok, value == per-shape extraction model; (2) every value of the cell's domain: parse(print(v)) == v; (3) BFS over update histories: states = values of the domain reached, operations = update lines (every argv of length <= 2 over the alphabet), expected next state = overlay model on command_for_update() matches; (4) value-enum name/alias table. non-trivial = successful parses/updates whose value was compared with the model");
     rep.set("bounds", json!({"types": cs.iter().map(|c| c.name()).collect::<Vec<_>>(), "max_argv_len": l, "update_line_len": 2}));
